@@ -604,6 +604,71 @@ fn c14_path_case(rep: &mut Report, rng: &mut Rng) {
     let _ = std::fs::remove_file(&path);
 }
 
+/// C14 when more audio is offered than was declared: the writer refuses the surplus
+/// (`ExcessiveTotalSamples`), the caller gives up and the process ends without finalize.  Every
+/// frame that was completely written before must still come back from the decoder - in
+/// particular no frame may have been written that the declared length makes unreachable.
+fn c14_over_offered_case(rep: &mut Report, rng: &mut Rng) {
+    use flac_codec::encode::FlacSampleWriter;
+    let (mut cfg, _, pcm) = small_case(rng);
+    cfg.extras = 0;
+    let ch = cfg.channels as usize;
+    let frames = pcm.len() / ch;
+    let bs = cfg.block_size as usize;
+    if frames < 2 * bs {
+        return;
+    }
+    // declare a whole number of blocks (1 .. n-1) although more is going to be offered
+    let declared = bs * rng.usize(1, frames / bs - 1).max(1);
+    rep.eval();
+    rep.case_begin(&format!("crash after over-offering: declared {declared} PCM frames, offered {frames}, {cfg:?}"));
+    rep.count("crash_scenario", "over-offered");
+    let replay = || J::obj().set("scenario", "over-offered-crash").set("cfg", cfg.to_json()).set("declared_frames", declared).set("pcm", pcm_json(&pcm));
+    let mut m = Mem::new();
+    let r = mon::guard(|| -> Result<Result<(), String>, String> {
+        let opts = make_options(&cfg)?;
+        let mut w = FlacSampleWriter::new(&mut m, opts, cfg.rate, cfg.bps, cfg.channels, Some((declared * ch) as u64)).map_err(|e| crate::api::show(&e))?;
+        // offered in block-sized calls, like a copy loop would
+        let mut res = Ok(());
+        for chunk in pcm.chunks(bs * ch) {
+            if let Err(e) = w.write(chunk) {
+                res = Err(crate::api::show(&e));
+                break;
+            }
+        }
+        std::mem::forget(w);
+        Ok(res)
+    });
+    match r {
+        Err(p) => rep.violation("panic", p.signature(), format!("{} at {}", p.msg, p.location), replay()),
+        Ok(Err(_)) => {}
+        Ok(Ok(write_result)) => {
+            rep.count("over_offer_write", if write_result.is_ok() { "accepted (error deferred)" } else { "refused" });
+            let mut rules = Rules::LENIENT;
+            rules.total = false;
+            rules.md5 = false;
+            let Ok(d) = decode_file(&m.data, &rules) else { return };
+            let written = d.interleaved();
+            let got = mon::guard(|| decode_all(std::io::Cursor::new(&m.data[..]), Rd::SampleRead, 4096));
+            match got {
+                Err(p) => rep.violation("panic", p.signature(), format!("decoding: {} at {}", p.msg, p.location), replay()),
+                Ok(g) => {
+                    if g.samples != written {
+                        rep.violation(
+                            "lost-or-fabricated-frames",
+                            "crash-prefix:over-offered:complete-frames-not-recovered",
+                            format!("{} complete frames ({} samples) are in the stream left behind, the decoder recovers {} samples (declared {} PCM frames, {} offered; error {:?})", d.frames.len(), written.len(), g.samples.len(), declared, frames, g.error),
+                            replay(),
+                        );
+                    } else {
+                        rep.nontrivial(fnv(&m.data));
+                    }
+                }
+            }
+        }
+    }
+}
+
 pub fn run_c14(ctx: &Ctx, rep: &mut Report) {
     if ctx.replay.is_some() {
         let text = std::fs::read_to_string(ctx.replay.as_ref().unwrap()).expect("replay");
@@ -623,6 +688,9 @@ pub fn run_c14(ctx: &Ctx, rep: &mut Report) {
         c14_case(rep, &mut rng, ctx.thorough);
         if i % 4 == 0 {
             c14_path_case(rep, &mut rng);
+        }
+        if i % 4 == 2 {
+            c14_over_offered_case(rep, &mut rng);
         }
         i += 1;
     }
